@@ -15,6 +15,9 @@ macro_rules! any_g {
         macro_rules! map_g {
             ($g:expr, $x:ident => $e:expr) => { match $g { $(AnyG::$v($x) => AnyG::$v($e)),* } };
         }
+        macro_rules! map_g_res {
+            ($g:expr, $x:ident => $e:expr) => { match $g { $(AnyG::$v($x) => ($e).map(AnyG::$v)),* } };
+        }
         fn new_g(n: usize, cap: usize) -> Option<AnyG> {
             match n { $($n => Some(AnyG::$v(Sodg::empty(cap))),)* _ => None }
         }
@@ -415,6 +418,29 @@ fn exec_label(ws: &[&str]) -> String {
     }
 }
 
+fn tmp_path(tag: &str) -> std::path::PathBuf {
+    let dir = std::env::var("HARNESS_TMP").map(std::path::PathBuf::from).unwrap_or_else(|_| std::env::temp_dir());
+    dir.join(format!("sodg-harness-{}-{tag}.bin", std::process::id()))
+}
+
+/// the bytes `save()` writes
+fn image_of(g: &AnyG) -> Result<Vec<u8>, String> {
+    let p = tmp_path("save");
+    with_g!(g, x => x.save(&p).map_err(|e| e.to_string()))?;
+    let b = std::fs::read(&p).map_err(|e| e.to_string())?;
+    let _ = std::fs::remove_file(&p);
+    Ok(b)
+}
+
+/// `load()` of the given bytes, into the same `N` as `like`
+fn load_like(like: &AnyG, bytes: &[u8]) -> Result<AnyG, String> {
+    let p = tmp_path("load");
+    std::fs::write(&p, bytes).map_err(|e| e.to_string())?;
+    let r = map_g_res!(like, x => { let _ = x; Sodg::load(&p).map_err(|e| e.to_string()) });
+    let _ = std::fs::remove_file(&p);
+    r
+}
+
 struct World {
     hs: HashMap<usize, HS>,
 }
@@ -463,6 +489,71 @@ impl World {
                                 "panic".into()
                             }
                         }
+                    }
+                }
+            }
+            ["save", a] => {
+                let Some(a) = parse_handle(a) else { return "bad-op".into() };
+                match self.hs.get(&a) {
+                    None => "bad-op".into(),
+                    Some(HS::Dead) => "dead".into(),
+                    Some(HS::Live(g)) => match guard(|| image_of(g)) {
+                        Some(Ok(b)) => format!("ok {}", hexstr(&b)),
+                        Some(Err(_)) => "err".into(),
+                        None => "panic".into(),
+                    },
+                }
+            }
+            ["reload", a, b] => {
+                let (Some(a), Some(b)) = (parse_handle(a), parse_handle(b)) else { return "bad-op".into() };
+                match self.hs.get(&a) {
+                    None => "bad-op".into(),
+                    Some(HS::Dead) => {
+                        self.hs.insert(b, HS::Dead);
+                        "dead".into()
+                    }
+                    Some(HS::Live(g)) => {
+                        let r = guard(|| image_of(g).and_then(|bytes| load_like(g, &bytes)));
+                        match r {
+                            Some(Ok(c)) => {
+                                let k = keys_of(&c);
+                                self.hs.insert(b, HS::Live(c));
+                                format!("ok ; {k}")
+                            }
+                            Some(Err(_)) => {
+                                self.hs.insert(b, HS::Dead);
+                                "err".into()
+                            }
+                            None => {
+                                self.hs.insert(b, HS::Dead);
+                                "panic".into()
+                            }
+                        }
+                    }
+                }
+            }
+            ["loadcuts", a, step] => {
+                let (Some(a), Ok(step)) = (parse_handle(a), step.parse::<usize>()) else { return "bad-op".into() };
+                match self.hs.get(&a) {
+                    None => "bad-op".into(),
+                    Some(HS::Dead) => "dead".into(),
+                    Some(HS::Live(g)) => {
+                        let Some(Ok(img)) = guard(|| image_of(g)) else { return "panic".into() };
+                        let size = img.len();
+                        let mut tested = 0;
+                        let mut bad = vec![];
+                        for k in 0..size {
+                            if !(step <= 1 || k % step == 0 || size - k <= 64 || k < 64) {
+                                continue;
+                            }
+                            tested += 1;
+                            match guard(|| load_like(g, &img[..k])) {
+                                Some(Ok(_)) => bad.push(format!("{k}:ok")),
+                                Some(Err(_)) => {}
+                                None => bad.push(format!("{k}:panic")),
+                            }
+                        }
+                        format!("ok {size} {tested} bad=[{}]", bad.join(","))
                     }
                 }
             }
